@@ -248,6 +248,11 @@ class Run:
     def main(self):
         mod, pid = self.mod, self.id
         wd = workdir(pid)
+        # a replay left by an earlier run of this (property, seed) would be misleading next to a pass
+        try:
+            os.remove(os.path.join(VERIF, "replays", "%s-%s.txt" % (pid, self.seed)))
+        except OSError:
+            pass
         rng = random.Random("%s:%s" % (pid, self.seed))
         facts = None
         if hasattr(mod, "prepare"):
